@@ -21,7 +21,12 @@ pub enum Sym {
     Eof,
     ErrOther,
     ErrWouldBlock,
+    /// large-count family only: deliver up to 40000 / 64008 bytes
+    D40000,
+    D64008,
 }
+/// Alphabet of the large-count family (counts beyond one HCOBS chunk).
+pub const LARGE_SYMS: [Sym; 8] = [Sym::DAll, Sym::D40000, Sym::D64008, Sym::D1, Sym::Intr, Sym::Eof, Sym::ErrOther, Sym::ErrWouldBlock];
 pub const SYMS: [Sym; 7] = [Sym::DAll, Sym::D1, Sym::D2, Sym::Intr, Sym::Eof, Sym::ErrOther, Sym::ErrWouldBlock];
 
 impl Sym {
@@ -34,10 +39,22 @@ impl Sym {
             Sym::Eof => "EOF",
             Sym::ErrOther => "ErrOther",
             Sym::ErrWouldBlock => "ErrWouldBlock",
+            Sym::D40000 => "deliver40000",
+            Sym::D64008 => "deliver64008",
         }
     }
     fn parse(s: &str) -> Option<Sym> {
-        SYMS.iter().copied().find(|x| x.name() == s)
+        SYMS.iter().chain(LARGE_SYMS.iter()).copied().find(|x| x.name() == s)
+    }
+    fn amount(self) -> Option<usize> {
+        match self {
+            Sym::D1 => Some(1),
+            Sym::D2 => Some(2),
+            Sym::D40000 => Some(40000),
+            Sym::D64008 => Some(64008),
+            Sym::DAll => Some(usize::MAX),
+            _ => None,
+        }
     }
 }
 
@@ -49,11 +66,13 @@ pub struct ScriptReader<'a> {
     source: &'a [u8],
     pos: usize,
     pub asked: Vec<usize>,
+    /// what each call was answered: Ok(bytes delivered; 0 = end of file) or Err(kind)
+    pub answers: Vec<Result<usize, ErrorKind>>,
 }
 
 impl<'a> ScriptReader<'a> {
     pub fn new(script: &'a [Sym], source: &'a [u8]) -> Self {
-        ScriptReader { script, step: 0, source, pos: 0, asked: Vec::new() }
+        ScriptReader { script, step: 0, source, pos: 0, asked: Vec::new(), answers: Vec::new() }
     }
     pub fn delivered(&self) -> &'a [u8] {
         &self.source[..self.pos]
@@ -66,17 +85,28 @@ impl Read for ScriptReader<'_> {
         let sym = self.script.get(self.step).copied().unwrap_or(Sym::Eof);
         self.step += 1;
         let want = match sym {
-            Sym::D1 => 1,
-            Sym::D2 => 2,
-            Sym::DAll => usize::MAX,
-            Sym::Intr => return Err(std::io::Error::new(ErrorKind::Interrupted, "interrupted")),
-            Sym::Eof => return Ok(0),
-            Sym::ErrOther => return Err(std::io::Error::other("hard error")),
-            Sym::ErrWouldBlock => return Err(std::io::Error::new(ErrorKind::WouldBlock, "would block")),
+            Sym::D1 | Sym::D2 | Sym::DAll | Sym::D40000 | Sym::D64008 => sym.amount().unwrap(),
+            Sym::Intr => {
+                self.answers.push(Err(ErrorKind::Interrupted));
+                return Err(std::io::Error::new(ErrorKind::Interrupted, "interrupted"));
+            }
+            Sym::Eof => {
+                self.answers.push(Ok(0));
+                return Ok(0);
+            }
+            Sym::ErrOther => {
+                self.answers.push(Err(ErrorKind::Other));
+                return Err(std::io::Error::other("hard error"));
+            }
+            Sym::ErrWouldBlock => {
+                self.answers.push(Err(ErrorKind::WouldBlock));
+                return Err(std::io::Error::new(ErrorKind::WouldBlock, "would block"));
+            }
         };
         let n = want.min(dst.len()).min(self.source.len() - self.pos);
         dst[..n].copy_from_slice(&self.source[self.pos..self.pos + n]);
         self.pos += n;
+        self.answers.push(Ok(n));
         Ok(n)
     }
 }
@@ -101,12 +131,8 @@ pub fn spec(script: &[Sym], count: usize, attempts: usize, source_len: usize) ->
         asked.push(count - got);
         let deliver = |k: usize| k.min(count - got).min(source_len - got);
         match sym {
-            Sym::D1 | Sym::D2 | Sym::DAll => {
-                let n = deliver(match sym {
-                    Sym::D1 => 1,
-                    Sym::D2 => 2,
-                    _ => usize::MAX,
-                });
+            Sym::D1 | Sym::D2 | Sym::DAll | Sym::D40000 | Sym::D64008 => {
+                let n = deliver(sym.amount().unwrap());
                 got += n;
                 if n == 0 {
                     err = None; // a zero-sized read is end of file
@@ -162,6 +188,35 @@ pub const COUNTS: [usize; 5] = [0, 1, 2, 3, 5];
 pub const ATTEMPTS: [usize; 5] = [1, 2, 3, 5, usize::MAX];
 
 static PATTERN: [u8; 16] = [0x31, 0xFE, 0xFD, 0x34, 0xFE, 0x36, 0x37, 0x38, 0x39, 0x3A, 0x3B, 0x3C, 0x3D, 0x3E, 0x3F, 0x40];
+
+/// The bytes the reader delivers: the 16-byte pattern for the small counts, a 400 000-byte stream
+/// (long stuff-free runs, a stuff sequence every 100 000 bytes, lone FE bytes) for the large ones.
+fn source(count: usize) -> &'static [u8] {
+    static BIG: std::sync::OnceLock<Vec<u8>> = std::sync::OnceLock::new();
+    if count <= 16 {
+        &PATTERN
+    } else {
+        BIG.get_or_init(|| {
+            (0..400_000usize)
+                .map(|i| match i % 100_000 {
+                    1 => 0xFE,
+                    2 => 0xFD,
+                    50_000 => 0xFE,
+                    _ => 0x30 + (i % 67) as u8,
+                })
+                .collect()
+        })
+    }
+}
+
+/// Bounded rendering for messages (large-count cases).
+fn show(b: &[u8]) -> String {
+    if b.len() <= 48 {
+        hex(b)
+    } else {
+        format!("{} bytes starting {} ending {}", b.len(), hex(&b[..8]), hex(&b[b.len() - 8..]))
+    }
+}
 
 #[derive(Clone, Debug)]
 pub struct Case {
@@ -245,24 +300,62 @@ pub fn run_case(case: &Case) -> Result<(), String> {
     }
 }
 
-fn compare_calls(reader: &ScriptReader, want: &Expected, count: usize, attempts: usize) -> Result<(), String> {
-    if reader.asked.len() > attempts {
-        return Err(format!("reader called {} times with max_attempts {}", reader.asked.len(), attempts));
+/// Judges the reader interaction against the statement, on the trace that actually happened
+/// (the implementation is free to ask for less than it still needs): at most max_attempts calls,
+/// never more than `count` bytes asked for in total, no call after end of file / a non-interrupt
+/// error / the count was reached, no stop before one of those or the attempt budget.
+/// Returns what the statement says the call must return.
+fn judge_trace(reader: &ScriptReader, count: usize, attempts: usize) -> Result<Expected, String> {
+    let calls = reader.asked.len();
+    if count == 0 {
+        if calls != 0 {
+            return Err(format!("count 0 but the reader was called {} times", calls));
+        }
+        return Ok(Expected { result: Ok(0), calls: 0, asked: vec![] });
     }
-    let mut delivered_so_far = 0usize;
-    // each request must not exceed what is still missing
-    let _ = delivered_so_far;
-    if reader.asked.iter().any(|a| *a > count) {
-        return Err(format!("asked for {:?} bytes with count {}", reader.asked, count));
+    if calls > attempts {
+        return Err(format!("reader called {} times, more than max_attempts {}", calls, attempts));
     }
-    if reader.asked != want.asked {
-        return Err(format!("reader calls (buffer sizes) {:?} expected {:?}", reader.asked, want.asked));
+    let mut got = 0usize;
+    let mut last_err: Option<ErrorKind> = None;
+    let mut stop: Option<&'static str> = None;
+    for i in 0..calls {
+        if let Some(why) = stop {
+            return Err(format!("reader called again (call {}) after {}", i + 1, why));
+        }
+        let asked = reader.asked[i];
+        if asked == 0 || asked > count - got {
+            return Err(format!("call {} asked for {} bytes with {} of {} already delivered (buffer sizes {:?})", i + 1, asked, got, count, reader.asked));
+        }
+        match reader.answers[i] {
+            Ok(0) => {
+                last_err = None;
+                stop = Some("end of file");
+            }
+            Ok(n) => {
+                got += n;
+                if got == count {
+                    stop = Some("the count was reached");
+                }
+            }
+            Err(ErrorKind::Interrupted) => last_err = Some(ErrorKind::Interrupted),
+            Err(kind) => {
+                last_err = Some(kind);
+                stop = Some("a non-interrupt error");
+            }
+        }
     }
-    delivered_so_far += reader.pos;
-    if delivered_so_far > count {
-        return Err("took more than count bytes from the reader".into());
+    if stop.is_none() && calls < attempts {
+        return Err(format!("stopped after {} reader calls with {} of {} bytes, no end of file, no hard error and {} attempts left", calls, got, count, if attempts == usize::MAX { "unlimited".to_string() } else { (attempts - calls).to_string() }));
     }
-    Ok(())
+    if reader.pos != got {
+        machinery_failure("reader log inconsistent");
+    }
+    let result = match (got, last_err) {
+        (0, Some(kind)) => Err(kind),
+        _ => Ok(got),
+    };
+    Ok(Expected { result, calls, asked: reader.asked.clone() })
 }
 
 fn run_case_inner(case: &Case) -> Result<(), String> {
@@ -285,14 +378,14 @@ fn run_arena(case: &Case, attempts: NonZeroUsize) -> Result<(), String> {
     let mut arena = ByteArena::new();
     prepare_arena(&mut arena, case.arena, case.count);
     let before = arena.remaining();
-    let want = spec(&case.script, case.count, case.attempts, PATTERN.len());
-    let mut reader = ScriptReader::new(&case.script, &PATTERN);
+    let src = source(case.count);
+    let mut reader = ScriptReader::new(&case.script, src);
     let got = arena.read_n(&mut reader, case.count, attempts);
-    compare_calls(&reader, &want, case.count, case.attempts)?;
+    let want = judge_trace(&reader, case.count, case.attempts)?;
     match (&got, &want.result) {
         (Ok(slice), Ok(n)) => {
-            if slice.slice() != &PATTERN[..*n] {
-                return Err(format!("returned [{}] expected the delivered bytes [{}]", hex(slice.slice()), hex(&PATTERN[..*n])));
+            if slice.slice() != &src[..*n] {
+                return Err(format!("returned [{}] expected the delivered bytes [{}]", show(slice.slice()), show(&src[..*n])));
             }
             if reader.delivered() != slice.slice() {
                 return Err("returned bytes differ from what the reader handed over".into());
@@ -336,7 +429,7 @@ fn run_arena(case: &Case, attempts: NonZeroUsize) -> Result<(), String> {
         if !first.slice().is_empty() && (a.start as usize) < (b.end as usize) && (b.start as usize) < (a.end as usize) {
             return Err("follow-up allocation overlaps the returned slice".into());
         }
-        if first.slice() != &PATTERN[..first.slice().len()] {
+        if first.slice() != &src[..first.slice().len()] {
             return Err("returned slice changed after a follow-up read".into());
         }
     }
@@ -349,31 +442,31 @@ fn run_encoder(case: &Case, attempts: NonZeroUsize) -> Result<(), String> {
     // prefix ends in FE so that a byte is held back across the read
     let prefix: &[u8] = &[0x61, 0xFE];
     let suffix: &[u8] = &[0xFD, 0x62];
-    let want = spec(&case.script, case.count, case.attempts, PATTERN.len());
+    let src = source(case.count);
     let mut enc = Encoder::new();
     enc.encode_copy(prefix);
     {
         let mut consumer = enc.consumer();
         prepare_arena(consumer.arena(), case.arena, case.count);
     }
-    let mut reader = ScriptReader::new(&case.script, &PATTERN);
+    let mut reader = ScriptReader::new(&case.script, src);
     let mut message = prefix.to_vec();
     match case.entry {
         Entry::EncoderReadN => {
             let got = enc.read_n(&mut reader, case.count, attempts);
-            compare_calls(&reader, &want, case.count, case.attempts)?;
+            let want = judge_trace(&reader, case.count, case.attempts)?;
             match (&got, &want.result) {
-                (Ok(slice), Ok(n)) if slice.slice() == &PATTERN[..*n] => {}
+                (Ok(slice), Ok(n)) if slice.slice() == &src[..*n] => {}
                 (Err(e), Err(kind)) if kind_of(e) == *kind => {}
-                (g, w) => return Err(format!("Encoder::read_n returned {:?} expected {:?}", g.as_ref().map(|s| s.slice().to_vec()).map_err(kind_of), w)),
+                (g, w) => return Err(format!("Encoder::read_n returned {:?} expected {:?}", g.as_ref().map(|s| show(s.slice())).map_err(kind_of), w)),
             }
             // the read alone must leave the output unaffected
         }
         _ => {
             let got = enc.encode_read(&mut reader, case.count, attempts);
-            compare_calls(&reader, &want, case.count, case.attempts)?;
+            let want = judge_trace(&reader, case.count, case.attempts)?;
             match (&got, &want.result) {
-                (Ok(n), Ok(m)) if n == m => message.extend_from_slice(&PATTERN[..*n]),
+                (Ok(n), Ok(m)) if n == m => message.extend_from_slice(&src[..*n]),
                 (Err(e), Err(kind)) if kind_of(e) == *kind => {}
                 (g, w) => return Err(format!("encode_read returned {:?} expected {:?}", g.as_ref().map_err(kind_of), w)),
             }
@@ -385,7 +478,7 @@ fn run_encoder(case: &Case, attempts: NonZeroUsize) -> Result<(), String> {
     let bytes = out.flatten().map_err(|_| "encoder output still has a pending placeholder after finish".to_string())?;
     let expect = refcodec::encode(&message, refcodec::PROD_FIRST, refcodec::PROD_LATER);
     if bytes != expect {
-        return Err(format!("encoder output [{}] expected the encoding of prefix + delivered bytes + suffix [{}]", hex(&bytes), hex(&expect)));
+        return Err(format!("encoder output [{}] expected the encoding of prefix + delivered bytes + suffix [{}]", show(&bytes), show(&expect)));
     }
     for s in out.stable_prefix() {
         let p = s.as_ptr() as usize;
@@ -393,7 +486,7 @@ fn run_encoder(case: &Case, attempts: NonZeroUsize) -> Result<(), String> {
             let r = b.as_ptr_range();
             (r.start as usize) <= p && p + s.len() <= (r.end as usize)
         };
-        if !(owning_iovec::verif::is_live(p, s.len()) || in_static(suffix) || in_static(prefix) || in_static(&PATTERN)) {
+        if !(owning_iovec::verif::is_live(p, s.len()) || in_static(suffix) || in_static(prefix) || in_static(src)) {
             return Err("[live] an output slice is neither in a live chunk nor in a caller buffer".into());
         }
     }
@@ -402,10 +495,10 @@ fn run_encoder(case: &Case, attempts: NonZeroUsize) -> Result<(), String> {
 
 fn run_decoder(case: &Case, attempts: NonZeroUsize) -> Result<(), String> {
     // message whose encoding is longer than any count: "abc" FE FD "defgh"
-    let message: &[u8] = &[0x61, 0x62, 0x63, 0xFE, 0xFD, 0x64, 0x65, 0x66, 0x67, 0x68];
+    let small: &[u8] = &[0x61, 0x62, 0x63, 0xFE, 0xFD, 0x64, 0x65, 0x66, 0x67, 0x68];
+    let message: &[u8] = if case.count <= 16 { small } else { &source(case.count)[..300_000] };
     let encoded = refcodec::encode(message, refcodec::PROD_FIRST, refcodec::PROD_LATER);
     let pre = 2usize; // bytes fed before the read
-    let want = spec(&case.script, case.count, case.attempts, encoded.len() - pre);
     let mut dec = Decoder::new();
     dec.decode_copy(&encoded[..pre]).map_err(|e| format!("decode failed: {}", e))?;
     {
@@ -417,11 +510,11 @@ fn run_decoder(case: &Case, attempts: NonZeroUsize) -> Result<(), String> {
     match case.entry {
         Entry::DecoderReadN => {
             let got = dec.read_n(&mut reader, case.count, attempts);
-            compare_calls(&reader, &want, case.count, case.attempts)?;
+            let want = judge_trace(&reader, case.count, case.attempts)?;
             match (&got, &want.result) {
                 (Ok(slice), Ok(n)) if slice.slice() == &encoded[pre..pre + n] => {}
                 (Err(e), Err(kind)) if kind_of(e) == *kind => {}
-                (g, w) => return Err(format!("Decoder::read_n returned {:?} expected {:?}", g.as_ref().map(|s| s.slice().to_vec()).map_err(kind_of), w)),
+                (g, w) => return Err(format!("Decoder::read_n returned {:?} expected {:?}", g.as_ref().map(|s| show(s.slice())).map_err(kind_of), w)),
             }
             // hand the bytes that were read to the decoder explicitly
             if let Ok(slice) = got {
@@ -431,7 +524,7 @@ fn run_decoder(case: &Case, attempts: NonZeroUsize) -> Result<(), String> {
         }
         _ => {
             let got = dec.decode_read(&mut reader, case.count, attempts);
-            compare_calls(&reader, &want, case.count, case.attempts)?;
+            let want = judge_trace(&reader, case.count, case.attempts)?;
             match (&got, &want.result) {
                 (Ok(n), Ok(m)) if n == m => fed += n,
                 (Err(e), Err(kind)) if kind_of(e) == *kind => {}
@@ -443,7 +536,7 @@ fn run_decoder(case: &Case, attempts: NonZeroUsize) -> Result<(), String> {
     let out = dec.finish().map_err(|e| format!("finish failed: {}", e))?;
     let bytes = out.flatten().map_err(|_| "decoder output has a pending placeholder".to_string())?;
     if bytes != message {
-        return Err(format!("decoder output [{}] expected [{}]", hex(&bytes), hex(message)));
+        return Err(format!("decoder output [{}] expected [{}]", show(&bytes), show(message)));
     }
     Ok(())
 }
@@ -520,6 +613,62 @@ fn run_script(rep: &mut Report, script: &[Sym]) {
     }
 }
 
+pub const LARGE_COUNTS: [usize; 6] = [64_008, 64_009, 64_010, 70_000, 128_016, 128_017];
+
+/// Counts beyond one HCOBS chunk (64008 bytes): every script over the large alphabet up to `max_len`.
+fn explore_large(ctx: &Ctx, rep: &mut Report, max_len: usize, unit: &mut usize) {
+    let mut scripts: Vec<Vec<Sym>> = vec![vec![]];
+    let mut frontier: Vec<Vec<Sym>> = vec![vec![]];
+    for _ in 0..max_len {
+        let mut next = Vec::new();
+        for s in &frontier {
+            for a in LARGE_SYMS {
+                let mut t = s.clone();
+                t.push(a);
+                next.push(t);
+            }
+        }
+        scripts.extend(next.iter().cloned());
+        frontier = next;
+    }
+    for script in &scripts {
+        for count in LARGE_COUNTS {
+            let u = *unit;
+            *unit += 1;
+            if !ctx.owns(u) {
+                continue;
+            }
+            for attempts in [1usize, 2, 3, usize::MAX] {
+                if attempts != usize::MAX && script.len() > attempts + 1 {
+                    continue;
+                }
+                for entry in ENTRIES {
+                    let case = Case { script: script.clone(), count, attempts, arena: ArenaState::FreshChunk, entry };
+                    rep.evaluations += 1;
+                    rep.transitions += script.len().min(attempts) as u64 + 1;
+                    rep.count("large_count_cases", 1);
+                    match run_case(&case) {
+                        Ok(()) => {
+                            rep.nontrivial += 1;
+                            let want = spec(script, count, attempts, 400_000);
+                            rep.outcome(hash_of(&(format!("{:?}", want.result), want.calls, entry as u8)));
+                        }
+                        Err(e) if !relevant(&e) => rep.count("cases_failing_only_a_sibling_oracle", 1),
+                        Err(e) => {
+                            if run_case(&case).is_ok() {
+                                machinery_failure("C17 violation did not reproduce");
+                            }
+                            let r = case.render();
+                            rep.violation(Violation { key: format!("C17:{}", r.replace(' ', ";")), summary: format!("read_n [{}]: {}", r, e), replay_text: format!("case: {}\nobserved: {}\n", r, e) });
+                        }
+                    }
+                }
+            }
+        }
+    }
+    rep.note(format!("large counts {:?} (beyond one 64008-byte HCOBS chunk): all scripts over {{deliverAll, deliver40000, deliver64008, deliver1, EINTR, EOF, ErrOther, ErrWouldBlock}} up to length {} x attempt limits 1/2/3/MAX x 5 entry points, 400 000-byte source with stuff sequences and lone FE bytes", LARGE_COUNTS, max_len));
+}
+
 fn run(ctx: &Ctx) -> Report {
     if ctx.prop != "C17" {
         machinery_failure("readn_mc serves C17 only");
@@ -529,6 +678,8 @@ fn run(ctx: &Ctx) -> Report {
     set_oracles(&[Oracle::Content]);
     let max_len = ctx.tier.pick(6, 7);
     explore(ctx, &mut rep, max_len);
+    let mut unit = 0usize;
+    explore_large(ctx, &mut rep, ctx.tier.pick(3, 4), &mut unit);
     rep.max_depth = max_len as u64;
     rep.note(format!(
         "C17: all reader scripts over {{deliverAll, deliver1, deliver2, EINTR, EOF, ErrOther, ErrWouldBlock}} up to length {} (EOF forever afterwards) x counts {:?} x attempt limits {:?} x 5 arena states (ByteArena::read_n) / 2 arena states (Encoder/Decoder read_n, encode_read, decode_read)",
